@@ -97,10 +97,7 @@ Checks(x) ==
 \* model is not a function of its input, and what was seen is within what the model can produce
 Known(n, x) ==
   LET c == x.case  o == x.obs IN
-  CASE n \in {"C05_Det_Manifest", "C05_Det_Engine", "C05_Det_Hooks", "C05_CrdBodySame", "C05_Reuse_Same", "C05_Route_Same", "C05_CfgReuse_Same", "C05_CapsConc_Same"} ->
-         \* AsConfig / AsSecrets over two files with one base name: the winner follows map order; only those payloads vary
-         [k |-> KnownFilesShape(c) /\ o.err = "none" /\ o.dErr = 1 /\ o.dNotes = 1, kf |-> "KF-L22-files-asconfig-basename-map-order"]
-    [] n = "C05_Schema_Isolated" ->
+  CASE n = "C05_Schema_Isolated" ->
          [k |-> KnownSchemaShape(c) /\ Range(o.schema) \subseteq {"accept", "reject", "error"}, kf |-> "KF-L8-schema-ref-reads-host-files"]
     [] OTHER -> [k |-> FALSE, kf |-> ""]
 
